@@ -100,7 +100,9 @@ def canon_mol(en: Enums, m, with_charges=True) -> dict:
                       "fc": int(a.formal_charge), "attrib": _attrib(a.attrib)})
     idx = {id(a): i for i, a in enumerate(m.atoms)}
     bonds = [(idx[id(b.a1)], idx[id(b.a2)], en.bi[en.BondType(b.btype)]) for b in m.bonds]
-    return {"name": m.name, "atoms": atoms, "bonds": bonds, "battrib": [_attrib(b.attrib) for b in m.bonds]}
+    # a Substructure has no name of its own: dump_mol2 writes "unknown"
+    return {"name": getattr(m, "name", "unknown"), "atoms": atoms, "bonds": bonds,
+            "battrib": [_attrib(b.attrib) for b in m.bonds]}
 
 
 def _attrib(d) -> dict:
